@@ -293,4 +293,18 @@ theorem D_unique (ts : List Tok) (f g : Fm) (hf : D 2 ts f) (hg : D 2 ts g) : f 
   have b := parseFm_complete ts g hg
   rw [a] at b; exact Option.some.inj b
 
+/-- a printer with minimal parentheses for each precedence level -/
+def pp : Nat → Fm → List Tok
+  | _, .top => [.top]
+  | _, .bot => [.bot]
+  | _, .atom n => [.id n]
+  | _, .neg a => .not :: pp 0 a
+  | lvl, .and a b =>
+    if lvl = 0 then .lpar :: (pp 1 a ++ .comma :: pp 0 b) ++ [.rpar]
+    else pp 1 a ++ .comma :: pp 0 b
+  | lvl, .or a b =>
+    if lvl ≤ 1 then .lpar :: (pp 2 a ++ .semi :: pp 1 b) ++ [.rpar]
+    else pp 2 a ++ .semi :: pp 1 b
+
+
 end InfOCF
